@@ -10,10 +10,13 @@ Proof. exact obj_roundtrip. Qed.
 Print Assumptions C20_obj_roundtrip.
 Theorem C20_ply_roundtrip : forall m, wf_mesh m = true -> parse_ply (write_ply m) = Some m.
 Proof. exact ply_roundtrip. Qed.
+Print Assumptions C20_ply_roundtrip.
 Theorem C20_vtk_roundtrip : forall m, wf_mesh m = true -> parse_vtk (write_vtk m) = Some m.
 Proof. exact vtk_roundtrip. Qed.
+Print Assumptions C20_vtk_roundtrip.
 Theorem C20_off_roundtrip : forall m ne, wf_mesh m = true -> parse_off (write_off m ne) = Some m.
 Proof. exact off_roundtrip. Qed.
+Print Assumptions C20_off_roundtrip.
 (* the count line io.to_off actually writes ("<V> f<F> <E>") is not a valid OFF header: refuted *)
 Theorem C20_off_as_found_refuted : forall m ne, parse_off (write_off_as_found m ne) = None.
 Proof. exact off_as_found_refuted. Qed.
